@@ -168,6 +168,38 @@ def gen_names(rng, tier):
     return out
 
 
+ILLEGAL = [b"$", b"@", b"!", b"`", b"?", b"\\", b"\xe4\xb8\xad", b"\xc3\xa9", b"$$", b"@x", b"\x01", b"\x7f"]
+
+
+def gen_errlocs(rng, tier):
+    """near-valid programs with illegal tokens / unfinished strings at line ends, in the middle of lines and at the end of
+    the file, under all three line-ending conventions: the token Locs AFTER the lexical error are compared"""
+    n = {"quick": 1500, "thorough": 60000, "search": 1500}[tier]
+    out = []
+    for k in range(n):
+        toks = OkGen(rng, max_depth=rng.choice([1, 2, 3])).chunk()
+        eol = rng.choice([b"\n", b"\r\n", b"\r", b"\n", b"\r\n"])
+        lines = render_ok(toks, rng).replace(b"\r\n", b"\n").replace(b"\r", b"\n").split(b"\n")
+        for _ in range(rng.choice([1, 1, 2, 3])):
+            i = rng.randrange(len(lines))
+            bad = rng.choice(ILLEGAL + [b"'abc", b'"x y', b"0x", b"1e", b"[=", b"--[==[ open"])
+            m = rng.random()
+            if m < 0.5:
+                lines[i] = lines[i] + rng.choice([b"", b" ", b"  "]) + bad           # last thing on the line
+            elif m < 0.8:
+                j = rng.randrange(len(lines[i]) + 1)
+                lines[i] = lines[i][:j] + b" " + bad + b" " + lines[i][j:]
+            else:
+                lines[i] = bad + b" " + lines[i]
+        bs = eol.join(lines)
+        try:
+            bs.decode("utf8")
+        except UnicodeDecodeError:
+            pass
+        out.append(hexs(bs))
+    return out
+
+
 PROJ = {}
 
 
@@ -194,13 +226,17 @@ def main(tier, seed):
                describe=lambda c: bytes.fromhex(c.split(" ")[0]).decode("utf8", "replace")[:300] if c[0] != "-" else "")
     nleg.py_spec = lambda c: (holder.__setitem__("ncase", c), "NAMESCOVERED")[1]
     nleg.spec_proj = lambda obs: names_coverage(holder["ncase"], obs)
-    legs = [leg, nleg]
+    eleg = Leg("c04.errlocs", gen_errlocs, skip_model=lambda m: m.startswith("SKIP"),
+               nontrivial=lambda c: len(c) > 40,
+               describe=lambda c: bytes.fromhex(c.split(" ")[0]).decode("utf8", "replace")[:300] if c[0] != "-" else "")
+    legs = [leg, nleg, eleg]
     can_run = r.can_run()
     extra = {}
     if can_run:
         r.replay_findings({l.name: l for l in legs})
         rows = r.run_leg(leg)
         r.run_leg(nleg)
+        r.run_leg(eleg)
         # the two readings of the spec (Gallina covers/slice_lsp on the model's Locs, Python slicing) must agree
         dis = 0
         cls_count = {}
